@@ -202,6 +202,17 @@ def strata(tier):
                    "path": PC.mkpath([{"p": "mol"}]), "arg_kind": "pathlike-literal"}
         yield {"term": PC.L("value", "in_", [lit, 7]), "cont": [lit, 7, 3], "doc": {"x": lit}, "path": PC.mkpath([{"p": "mol"}]),
                "arg_kind": "pathlike-literal"}
+    # data-path ARGUMENTS whose parts are almost what a primitive denotes (the argument is serialised with the path's own writer)
+    vk = PC.L("value", "keys_contain", "x")
+    for ap in ({"p": "mol", "key": {"prim": 0}, "index": {"prim": 0}, "value": PC.L("value", "equal_to", 1, pre="length")},
+               {"p": "mol", "key": {"prim": 1}, "index": {"prim": 1}, "value": vk}, {"p": "map", "key": {"prim": "rows"}, "value": PC.L("value", "truthy")},
+               {"p": "map", "key": PC.L("key", "not_equal_to", "rows")}, {"p": "list", "index": {"prim": 0}, "value": PC.L("value", "falsy")},
+               {"p": "mol", "key": {"prim": 0}, "index": {"prim": 0}, "label": "L"}, {"p": "map", "key": {"prim": "rows"}, "label": ""}):
+        for parts in ([{"p": "prim", "v": "rows"}, ap, {"p": "list", "index": {"prim": 0}}], [ap, {"p": "mol"}], [{"p": "prim", "v": "rows"}, ap], [ap]):
+            P = {"$path": PC.mkpath(parts)}
+            sdoc = {"rows": [[5], [6, 7], {"x": [8]}], 0: [[9]], 1: {"x": 1}}
+            for tm in (PC.L("value", "equal_to", P), PC.L("value", "in_", [P, 5])):
+                yield {"term": tm, "cont": [5, [5], 6, [[5], [6, 7]], None], "doc": sdoc, "path": PC.mkpath([{"p": "mol"}]), "arg_kind": "path-with-almost-primitive-part"}
     # a keyword that is itself named like a path key, with every kind of value
     Px = {"$path": PC.mkpath([{"p": "prim", "v": "x"}])}
     for kwname in ("path", "Path", "path.length"):
